@@ -763,7 +763,20 @@ func init() {
 			return []Value{Eq(err.Type, Const(32, uint64(typeID(pt.Elem()))))}
 		},
 		"(time.Time).Sub": func(s *State, fn *ssa.Function, args []Value, where string) []Value {
-			return []Value{App("time_sub", BV(64), args[0].(*OpaqueV).T, args[1].(*OpaqueV).T)}
+			d := App("time_sub", BV(64), args[0].(*OpaqueV).T, args[1].(*OpaqueV).T)
+			// time.Since(ref) IS time.Now().Sub(ref): a clock reading minus a reference instant given by a literal counts
+			// as the most recent Since of the path (the ghost sinceNanos / sinceRefIs2015 read it)
+			if ref, ok := args[1].(*OpaqueV); ok && ref.Aux != nil {
+				if sv, ok := ref.Aux["literal"].(*StringV); ok {
+					for _, n := range s.nowCalls {
+						if n == args[0].(*OpaqueV).T {
+							s.lastSince = d
+							s.lastSinceRef = sv.litOr("")
+						}
+					}
+				}
+			}
+			return []Value{d}
 		},
 		"time.NewTicker": func(s *State, fn *ssa.Function, args []Value, where string) []Value {
 			// *time.Ticker with a channel C; the period is recorded
@@ -885,6 +898,23 @@ func init() {
 			}
 			// a value built by reflect.New(TypeOf(m).Elem()) has the dynamic type of m
 			return []Value{&IfaceV{Type: ty, Handle: root, alts: map[int]Value{}, Static: types.NewInterfaceType(nil, nil)}}
+		},
+		"bytes.Equal": func(s *State, fn *ssa.Function, args []Value, where string) []Value {
+			a, b := args[0].(*SliceV), args[1].(*SliceV)
+			if !(a.Len.IsConst() && b.Len.IsConst() && a.Len.Val <= 64 && b.Len.Val <= 64) {
+				unsup("bytes.Equal of slices whose lengths are not small constants")
+			}
+			if a.Len.Val != b.Len.Val {
+				return []Value{False}
+			}
+			eq := True
+			if a.Len.Val > 0 {
+				aa, ba := s.sliceArr(a), s.sliceArr(b)
+				for i := uint64(0); i < a.Len.Val; i++ {
+					eq = And(eq, Eq(aa.Select(Add(a.Off, Const(64, i))), ba.Select(Add(b.Off, Const(64, i)))))
+				}
+			}
+			return []Value{eq}
 		},
 		"bytes.Repeat": func(s *State, fn *ssa.Function, args []Value, where string) []Value {
 			b := args[0].(*SliceV)
@@ -1365,7 +1395,11 @@ func ghostCrcFold(s *State, fn *ssa.Function, args []Value, where string) []Valu
 	n := asTerm(args[2])
 	arr := s.sliceArr(p)
 	off := p.Off
-	return []Value{s.crcFoldTerm(c, arr, off, n, 2)}
+	depth := 2
+	if s.eng.boundK > 0 {
+		depth = s.eng.boundK + 1 // bounded stand-in: the fold is unfolded as far as the loop is unrolled
+	}
+	return []Value{s.crcFoldTerm(c, arr, off, n, depth)}
 }
 
 func (s *State) crcStep(c, b *Term) *Term {
